@@ -504,9 +504,14 @@ def exec_violations(results, want_outputs=True):
             continue
         for i, run in enumerate(r["runs"]):
             if run["exec"] == "exception" and run.get("in_rt") and "RtError" not in run.get("error", ""):
-                # exception raised inside the reference runtime that is not a modelled API misuse:
-                # the stub met something it does not model -> harness error, not a violation
-                raise RuntimeError("reference runtime failed: %s (line %s)" % (run.get("error"), run.get("line")))
+                # the reference runtime itself raised while executing the emitted program.  Every API entry point
+                # validates what it is given and raises RtError; anything else that still escapes (an index or
+                # key error deep inside a transformation handed inconsistent rank ids, say) is attributed to the
+                # program as well, under its own class: on the unchanged tree no soak has ever produced one, and
+                # either classification would equally count against the check there
+                vs.append(Violation("exec_crash_inside_runtime", [h], {"input_set": i, "error": run.get("error"),
+                                                                      "line": run.get("line")}))
+                break
             if run["exec"] != "ok":
                 vs.append(Violation("exec_" + run["exec"], [h], {"input_set": i, "error": run.get("error"),
                                                                   "line": run.get("line")}))
